@@ -146,3 +146,87 @@ func c03Version(x *Ctx) {
 	}
 	_ = fmt.Sprint
 }
+
+// C03, stratum "clunk-and-use-pipelined": a Tclunk (or Tremove) of a fid and further requests naming the same fid
+// are written together. Whatever the later ones are answered (served or 'unknown fid'), every one of them gets
+// exactly one reply.
+func c03SameFidGen(r *Rand, c *Case) {
+	c.Stratum = "clunk-and-use-pipelined"
+	c.Cfg["samefid"] = 1
+	c.Cfg["rounds"] = int64(r.Range(3, 12))
+	c.Cfg["sameseg"] = int64(r.Intn(2))
+}
+
+func c03SameFid(x *Ctx) {
+	c := x.C
+	ms := uint32(1024)
+	fs := NewScriptFS(x)
+	fs.PlanFor = func(inv *Inv) *Plan { return &Plan{NWqid: -1, NData: -1, QType: qDir} }
+	sys := NewSrvSys(x, fs.OpsValue(false, false), fs, ms, true, int(c.cfg("maxpend")), int(c.cfg("debug")))
+	sc := sys.AddConn(0, int(c.cfg("seg")))
+	p := sc.Peer
+	r := NewRand(c.Seed ^ 0x5a3e)
+	done := false
+	rt.Go(rt.SiteSpawn, func() {
+		rt.SetName("client")
+		if rr := p.Call(&Msg{Type: Tversion, Tag: NOTAG, Msize: ms, Version: "9P2000.u"}); rr == nil || rr.M == nil || rr.M.Type != Rversion {
+			x.Violate("setup", "Tversion failed")
+			return
+		}
+		if rr := p.Call(&Msg{Type: Tattach, Tag: 1, Fid: 0, Afid: NOFID, Uname: "u1", Nuname: 1}); rr == nil || rr.M == nil || rr.M.Type != Rattach {
+			x.Violate("setup", "Tattach failed")
+			return
+		}
+		tag := uint16(10)
+		for round := 0; round < int(c.cfg("rounds")); round++ {
+			if rr := p.Call(&Msg{Type: Twalk, Tag: 2, Fid: 0, Newfid: 1, Wname: []string{"a"}}); rr == nil || rr.M == nil || rr.M.Type != Rwalk {
+				x.Violate("r3-no-reply", "walk to fid 1 in round %d answered %v", round, rr)
+				return
+			}
+			var ms1 []*Msg
+			tag++
+			ms1 = append(ms1, &Msg{Type: uint8(r.Pick(Tclunk, Tclunk, Tremove)), Tag: tag, Fid: 1})
+			for k := r.Range(1, 3); k > 0; k-- {
+				tag++
+				ms1 = append(ms1, &Msg{Type: uint8(r.Pick(Tstat, Tstat, Tread, Tclunk)), Tag: tag, Fid: 1, Count: 5})
+			}
+			var ss []*Sent
+			if c.cfg("sameseg") != 0 {
+				ss = p.Write(ms1...)
+			} else {
+				for _, m := range ms1 {
+					ss = append(ss, p.Write(m)[0])
+				}
+			}
+			rt.YieldUntil(rt.SiteActor, func() bool { return allReplied(ss) || p.EOF })
+			if !allReplied(ss) {
+				return
+			}
+			// the number must be usable again, or still be valid: either way a clunk now is answered
+			tag++
+			if rr := p.Call(&Msg{Type: Tclunk, Tag: tag, Fid: 1}); rr == nil || rr.M == nil {
+				return
+			}
+		}
+		done = true
+	})
+	if !x.Run() {
+		return
+	}
+	for _, s := range p.Sent {
+		if s.Reply == nil {
+			x.Violate("r3-no-reply", "%s, written together with other requests naming the same fid, got no reply", s.M)
+			return
+		}
+	}
+	if !done && len(x.Res.Viol) == 0 {
+		x.Violate("r3-no-reply", "the session did not finish")
+	}
+	for _, rv := range p.Recv {
+		if rv.For == nil && rv.M != nil {
+			x.Violate("r1-no-outstanding", "the server sent %s although no request with that tag was outstanding", rv.M)
+			break
+		}
+	}
+	x.Probe("clunk-and-use-pipelined")
+}
